@@ -50,6 +50,7 @@ class Ctx:
         self.budget = budget        # safe points the whole program should stay near
         self.allow = budget         # what is left for the block being generated
         self.force_n = None         # calibration only: every loop count becomes this
+        self.stack_avail = 90       # stack slots recursion may use (set per program)
         self.decls = []             # records / enums (must precede all functions)
         self.globals = []           # top-level let/var (roots in the global vector)
         self.count_calls = rng.random() < 0.5   # idi() bumps a global counter
@@ -72,6 +73,13 @@ class Ctx:
         v = max(2, min(v, int(self.allow // per)))
         self.allow -= v * per
         return v
+
+    def depth(self, lo, hi, slots, extra=0):
+        """recursion depth: random in lo..hi, capped so that (depth + 1) frames of about `slots`
+        stack slots each (plus `extra` slots of other frames) fit what main leaves free"""
+        v = self.rng.randint(lo, hi)
+        cap = (self.stack_avail - extra) // slots - 1
+        return max(1, min(v, cap))
 
     def need(self, *names):
         for name in names:
@@ -290,7 +298,7 @@ def f1_chain(c):
     K = c.uid()
     c.need("mix", "idi", "churn")
     b = Block(1, 7)
-    d = r.randint(2, 5)
+    d = c.depth(2, 5, 9, 36)
     extra = r.choice(["n", "n * 2", "idi(n)", "churn(1) + n"])
     c.funcs.append(T("""func chain${K}(n : int, f(x : int) -> int) -> (int) -> int
 {
@@ -437,7 +445,7 @@ def f2_reclist(c):
 {
     if (h == nil) { k } else { rlen${K}(h.next, k + 1) }
 }""", K=K))
-    d = r.randint(3, 7)
+    d = c.depth(3, 7, 10)
     b.setup.append("let rl%d = rb%d(%d, %d)" % (K, K, d, r.randint(1, 9)))
     b.setup.append("var i%d = 0" % K)
     b.use.append("acc = mix(acc, rs%d(rl%d) + rlen%d(rl%d, 0))" % (K, K, K, K))
@@ -556,14 +564,15 @@ def f2_tree(c):
 {
     if (t == nil) { 0 } else { (tsum${K}(t.l, d + 1) + t.v * d + tsum${K}(t.r, d + 1)) % 10007 }
 }""", K=K))
-    # keys = (i * a + b) % q for i < cnt; pick parameters whose tree is at most 6 deep
+    # keys = (i * a + b) % q for i < cnt; pick parameters whose tree is at most `lim` deep
+    lim = max(3, c.depth(6, 6, 10, 10))
     while True:
         q = r.choice([11, 13, 17, 19, 23])
         a = r.randint(2, q - 1)
         bb = r.randint(0, q - 1)
         cnt = r.randint(4, 11)
         keys = [(i * a + bb) % q for i in range(cnt)]
-        if tree_depth(keys) <= 6:
+        if tree_depth(keys) <= lim:
             break
     c.funcs.append(T("""func grow${K}(cnt : int, a : int) -> T${K}
 {
@@ -989,12 +998,12 @@ def f4_rec(c):
 {
     i < 0 ? acc : rv${K}(s, i - 1, acc + s[i])
 }""", K=K))
-    d = r.randint(2, 6)
+    d = c.depth(2, 6, 9)
     b.setup.append('let rp%d = rep%d(%d, "%s")' % (K, K, d, r.choice(["a", "bc", "q"])))
     b.use.append('let rr%d = rv%d(rp%d, length(rp%d) - 1, "")' % (K, K, K, K))
     b.use.append('prints("R%d " + rp%d + " " + rr%d + "\\n")' % (K, K, K))
     b.use.append("acc = mix(acc, shash(rp%d) + shash(rr%d) * 2 + shash(rep%d(%d, \"%s\")))"
-                 % (K, K, K, r.randint(1, 5), r.choice(["z", "mn"])))
+                 % (K, K, K, c.depth(1, 5, 9, 12), r.choice(["z", "mn"])))
     b.late.append("acc = mix(acc, shash(rr%d + rp%d))" % (K, K))
     return b
 
@@ -1290,11 +1299,13 @@ catch (division_by_zero)
     b.setup.append("let kd%d = mkp(%d, %d)" % (K, r.randint(1, 99), r.randint(1, 99)))
     b.setup.append("var i%d = 0" % K)
     n = c.n(3, 10, 32)
+    dep = c.depth(2, 5, 13, 26) - 1
+    dep = max(1, dep)
     b.use.append(T("""for (i${K} = 0; i${K} < $n; i${K} = i${K} + 1)
     {
         acc = mix(acc, safe${K}(i${K} % $dep + 1, i${K} % $m, kd${K}) + kd${K}.y)
-    }""", K=K, n=n, dep=r.randint(2, 5), m=r.randint(2, 3)))
-    b.late.append("acc = mix(acc, safe%d(%d, 0, kd%d))" % (K, r.randint(1, 5), K))
+    }""", K=K, n=n, dep=dep, m=r.randint(2, 3)))
+    b.late.append("acc = mix(acc, safe%d(%d, 0, kd%d))" % (K, r.randint(1, dep), K))
     return b
 
 
@@ -1384,8 +1395,8 @@ def f7_deep(c):
     b.use.append(T("""for (i${K} = 0; i${K} < $n; i${K} = i${K} + 1)
     {
         acc = mix(acc, deep${K}(i${K} % $d + 2, "") + ev${K}(i${K} % $d2 + 1, mkp(i${K}, 1)))
-    }""", K=K, n=n, d=r.randint(2, 5), d2=r.randint(2, 6)))
-    b.use.append('prints("D%d " + deep%d(%d, "%s") + "\\n")' % (K, K, r.randint(3, 7), r.choice(["", "pre"])))
+    }""", K=K, n=n, d=max(1, c.depth(2, 5, 11) - 1), d2=c.depth(2, 6, 10)))
+    b.use.append('prints("D%d " + deep%d(%d, "%s") + "\\n")' % (K, K, c.depth(3, 7, 11), r.choice(["", "pre"])))
     return b
 
 
@@ -1564,6 +1575,11 @@ def gen_one(seed, index):
     c.need("mix")
     nfam = rng.randint(3, 6)
     fams = rng.sample(sorted(FAMILIES), nfam)
+    wrap = rng.random() < 0.5
+    # 200 slots by default; keep the programs within about 160: 34 are in use when main starts,
+    # main holds about 5 locals per block, the optional body() frame, and the non-recursive
+    # frames/temporaries between main and a recursion
+    c.stack_avail = 160 - 34 - 5 * nfam - (9 if wrap else 0) - 26
     blocks = []
     for f in fams:
         c.allow = budget / nfam
@@ -1572,7 +1588,6 @@ def gen_one(seed, index):
     for b in blocks:
         covered |= b.fams
     unhandled = rng.random() < 0.03
-    wrap = rng.random() < 0.5
     text = assemble(rng, c, blocks, wrap, unhandled)
     pid = "gen-s%d-%d-f%s%s" % (seed, index, "".join(str(f) for f in sorted(covered)),
                                 "u" if unhandled else "")
